@@ -74,6 +74,11 @@ def c09_jobs(tier):
             jobs.append(_al("VerifC09_WellFormed", which, n, m))
         for kind in range(8):
             jobs.append(_al("VerifC09_IllTyped", which, 2, 2, kind=kind))
+    # fixed letters (split=2), symbolic scores: longer descriptions (NW 5x5: 11 s, NWAffine 5x4: 90 s - measured)
+    for (which, n, m) in ([(0, 5, 5)] if tier == "quick" else [(0, 5, 5), (3, 5, 4), (0, 6, 5)]):
+        j = _al("VerifC09_WellFormed", which, n, m, split=2)
+        j["timeout_s"] = 900 if tier == "quick" else 3000
+        jobs.append(j)
     return jobs
 
 
